@@ -24,6 +24,9 @@ def check_rate_t3(ck, prog):
     motion.declare_ints()
     T = V('time')
     outs = Interp(prog).run(fn, [V(p) for p in fn.params])
+    # the end rate must not depend on the caller's mpmath precision either: any mpmath operation
+    # in rate_t3 needs a precision pinned in rate_t3 (today it uses none)
+    motion.check_precision(ck, 'C02-D4-precision', fn, outs)
     want = motion.rate_t3_oracle(T)
     n = 0
     for o in outs:
